@@ -338,7 +338,7 @@ class CFGrid1DTopology(CFGridTopology):
 
     def _get_or_make_bounds(self, coordinate: xarray.DataArray) -> xarray.DataArray:
         with suppress(KeyError):
-            bounds = self.dataset.data_vars[coordinate.attrs['bounds']]
+            bounds = self.dataset[coordinate.attrs['bounds']]
             if (
                 len(bounds.dims) == 2
                 and bounds.dims[0] == coordinate.dims[0]
